@@ -65,6 +65,9 @@ type WChunk struct {
 	ExtraMeta                            []thriftc.Field
 	FileOffsetStyle                      int // 0 = chunk start, 1 = zero, 2 = chunk end
 	SetDictOffset                        bool
+	// LieTotalComp / LieNumValues, when set, replace the truthful footer numbers (hostile or
+	// damaged footers; the page bytes themselves stay truthful)
+	LieTotalComp, LieNumValues *int64
 }
 
 // WRowGroup is one row group.
@@ -299,7 +302,7 @@ func WriteFile(root *Node, rgs []WRowGroup, opt WOptions) ([]byte, error) {
 				pathVals = append(pathVals, thriftc.Str(s))
 			}
 			md := []thriftc.Field{i32f(1, int64(ch.Leaf.Type)), thriftc.F(2, thriftc.List(thriftc.KI32, encVals...)), thriftc.F(3, thriftc.List(thriftc.KBinary, pathVals...)),
-				i32f(4, int64(ch.Codec)), i64f(5, nv), i64f(6, uncompTotal), i64f(7, compTotal)}
+				i32f(4, int64(ch.Codec)), i64f(5, lie(ch.LieNumValues, nv)), i64f(6, uncompTotal), i64f(7, lie(ch.LieTotalComp, compTotal))}
 			if ch.WithKV {
 				md = append(md, thriftc.F(8, thriftc.List(thriftc.KStruct, thriftc.Struct(thriftc.F(1, thriftc.Str("writer.note")), thriftc.F(2, thriftc.Str("reference"))))))
 			}
@@ -412,4 +415,11 @@ func WriteFile(root *Node, rgs []WRowGroup, opt WOptions) ([]byte, error) {
 	binary.LittleEndian.PutUint32(l[:], uint32(len(footer)))
 	out = append(out, l[:]...)
 	return append(out, "PAR1"...), nil
+}
+
+func lie(p *int64, v int64) int64 {
+	if p != nil {
+		return *p
+	}
+	return v
 }
